@@ -13,14 +13,14 @@ CHECKS = {
  "C05": ("property-based testing (rapid) + bounded-exhaustive short strings + native go fuzzing (thorough); oracle: AST invariant validator applied to every node of every parsed tree",
          "Generated-input search against a validity predicate written from the property statement (child-list consistency, no shared nodes, public kinds in legal places, levels, every segment inside the source, line order, inline text order inside the block's lines). Exhaustive for strings of length <= 3/4 over a 23-symbol alphabet x 4 configurations and for line-structured documents (pairs/triples of line atoms, as in C01) x 2 configurations. A self-test feeds hand-built malformed trees to the validator.",
          "Trusted: the validator (oracle/astcheck.go) and its reading of 'legal places'; documents up to 16 KiB."),
- "C03": ("property-based testing (rapid) over HTML/attribute-heavy soup and adversarial fragments in every attribute-bearing position x every safe configuration; native go fuzzing (thorough); oracle: strict HTML tokenizer + fixed vocabulary + browser tokenizer agreement + strict XML under XHTML",
+ "C03": ("property-based testing (rapid) over HTML/attribute-heavy soup and adversarial fragments in every attribute-bearing position x every safe configuration; native go fuzzing (thorough); oracle: strict HTML tokenizer + fixed vocabulary (tags and per-element attribute names as literal tables, goldmark's filter objects are not consulted) + browser tokenizer agreement + strict XML under XHTML; attribute-name tier (edits and position-wise mixes of vocabulary names)",
          "Generated-input search against a validity predicate over the output: a strict tokenizer that accepts only text, quoted-attribute start tags, end tags, void self-closing tags and the placeholder comment; nesting; tag and attribute vocabulary per configuration; agreement with golang.org/x/net/html's lenient tokenizer; encoding/xml strict parse under XHTML. Fixed good/bad vectors self-test the oracle on every run.",
          "Trusted: oracle/html.go, the literal vocabulary table, Go's html/xml packages and x/net/html."),
  "C04": ("property-based testing (rapid) with a URL attack grammar placed in every URL-bearing construct x safe configurations; native go fuzzing (thorough); oracle: every href/src decoded like a browser and normalised per WHATWG preprocessing must not be javascript:/vbscript:/file:/non-image data:",
          "Generated-input search: scheme spellings (case flips, backslash escapes, named/decimal/hex references with leading zeros, percent-encoding, leading/embedded whitespace and controls) in inline/reference links and images, autolinks, nested constructs, containers; a generator-health self-check requires unsafe mode to emit a dangerous URL in >= 15% of attack documents.",
          "Trusted: the browser model (x/net/html attribute decoding + WHATWG preprocessing) in oracle/html.go."),
- "C06": ("property-based testing (rapid), history-as-data state machine: Convert / Parse+Render / re-render kept trees / render trees parsed by another instance / caller-supplied Context on one long-lived instance; oracle: metamorphic - every output equals the canonical output of a brand-new instance",
-         "Generated call histories (2..14 operations over a pool of 2..6 documents, definer/user pairs for references, heading ids, footnotes, quotes, tables, fences, escaped attribute values, multi-line code spans, conversions into failing writers) against a history-independence oracle; in a quarter of the cases all one-shot conversions read their document from one recycled backing array.",
+ "C06": ("property-based testing (rapid), history-as-data state machine: Convert / Parse+Render / re-render kept trees / render trees parsed by another instance / caller-supplied Context on one long-lived instance; oracle: metamorphic - every output equals the canonical output of a brand-new instance; a reflection-based fingerprint of the tree's public surface is compared before and after every Render (rendering does not alter the tree); re-render tiers over every shared document kind and the construct-adjacency enumeration",
+         "Generated call histories (2..14 operations over a pool of 2..6 documents, definer/user pairs for references, heading ids, footnotes, quotes, tables, fences, escaped attribute values, multi-line code spans, conversions into failing writers, HTML blocks with closure lines) against a history-independence oracle; every retained tree is fingerprinted (kinds, child counts, attributes, line segments, all exported scalar / segment / byte-slice fields) and must be unchanged by rendering; one-document re-render cases (Parse once, Render three times, one of them by another instance) over soup, line soup, repository inputs, mutations, brackets, footnotes, long, near-limit and pathological documents; in a quarter of the cases all one-shot conversions read their document from one recycled backing array.",
          "Trusted: instances are created fresh per case; canonical output computed by a brand-new instance from a private copy of each document."),
  "C08": ("property-based testing (rapid), metamorphic relation Convert(q^n(D)) == blockquote-wrapped Convert(D) over TAB/CR-free documents x {core,GFM} x {safe,unsafe,xhtml}; exhaustive over the 639 TAB/CR-free spec examples with spec.json as the independent expected side",
          "Metamorphic relation from CommonMark 5.1 checked by byte equality on generated documents (soup, line soup, repository inputs, mutations), n-fold nesting up to 3, plus all spec examples against spec.json.",
@@ -52,7 +52,7 @@ CHECKS = {
  "C17": ("property-based testing (rapid) with a table row model (expected shape known by construction) and pipe/dash/colon soup; oracle: one thead/tr, n th, every body row n td, tbody iff rows, per-column alignment, mismatched header => no table; AST side: rows of len(Alignments) cells",
          "Generated row models serialised with optional outer pipes, escaped pipes, containers; and structural rectangularity on soup.",
          "Trusted: the row model avoids spellings whose cell count is implementation-defined (blank first/last cells, cells ending in a backslash)."),
- "C18": ("property-based testing (rapid) of call sequences as data on Reader and BlockReader + bounded-exhaustive enumeration (all sources of length <= 3 quick / <= 4 thorough over 7 symbols x all sequences of length <= 3 over 8 core calls x 3 reader shapes) against a flat cursor model; Segment arithmetic as pure functions",
+ "C18": ("property-based testing (rapid) of call sequences as data on Reader and BlockReader + bounded-exhaustive enumeration (all sources of length <= 3 quick / <= 4 thorough over 7 symbols x all sequences of length <= 3 over 8 core calls x 3 reader shapes) against a flat cursor model (Value compared for whole lines and for every range inside one line, padded or not; segments returned by FindClosure must lie inside the source and end at the closer; a reproduced non-termination is a violation); Segment arithmetic as pure functions",
          "Model-based testing against a cursor model (line, start, remaining padding).",
          "Trusted: the cursor model; LineOffset measured from the reader's own line head; BlockReader.Value compared for whole-line segments and unpadded ranges only."),
  "C19": ("property-based testing (rapid) of algebraic laws + bounded-exhaustive strings (length <= 4 quick / <= 5 thorough over 14 symbols) + all code points for per-rune laws; references built by construction; BytesFilter programs with keys colliding in a bucket and keys colliding in the full 64-bit hash against Go maps; URLEscape laws other than ASCII-purity are checked for every byte string, valid UTF-8 or not",
